@@ -35,8 +35,14 @@ impl Story {
     }
 
     /// Switches to the default flow, keeping the current flow around for
-    /// later.
+    /// later. Like every other flow operation it is refused while a
+    /// time-limited continue is unfinished; having no error to return, it
+    /// then does nothing.
     pub fn switch_to_default_flow(&mut self) {
+        if self.async_continue_active {
+            return;
+        }
+
         self.get_state_mut().switch_to_default_flow_internal();
     }
 }
